@@ -125,18 +125,23 @@ TITLES["C05"] = "vyukov_bounded and nikolaev_bounded queues are linearizable bou
 PLAN["C05"] = {
     "quick": [run("bounded", "vyukov", c=2, opt={"cap": 2}), run("bounded", "vyukov", c=1, opt={"cap": 4, "wrap": 5}),
               run("bounded", "nikolaev", c=2, opt={"cap": 1}), run("bounded", "nikolaev", c=2, opt={"cap": 2}),
-              run("bounded", "nikolaev", c=2, opt={"cap": 3, "wrap": 9}), run("bounded", "nikolaev_p0", c=2, opt={"cap": 2})],
+              run("bounded", "nikolaev", c=2, opt={"cap": 3, "wrap": 9}), run("bounded", "nikolaev_p0", c=2, opt={"cap": 2}),
+              run("bounded", "nikolaev", c=2, opt={"cap": 2, "fixed": 1, "prefill": 0}), run("bounded", "nikolaev_p0", c=2, opt={"cap": 2, "fixed": 1, "prefill": 0}),
+              run("bounded", "vyukov", c=2, opt={"cap": 2, "fixed": 1, "prefill": 0})],
     "thorough": [run("bounded", "vyukov", c=3, opt={"cap": 2}, weight=6), run("bounded", "vyukov", c=2, opt={"cap": 4, "wrap": 9}),
                  run("bounded", "vyukov", c=2, opt={"cap": 2, "T": 3, "m": 1, "prefill": 1}),
                  run("bounded", "vyukov", c=1, opt={"cap": 2, "T": 2, "m": 3, "prefill": 1}, weight=3),
                  run("bounded", "nikolaev", c=3, opt={"cap": 1}, weight=3), run("bounded", "nikolaev", c=3, opt={"cap": 2}, weight=6),
                  run("bounded", "nikolaev", c=2, opt={"cap": 3, "wrap": 9}), run("bounded", "nikolaev", c=2, opt={"cap": 4, "wrap": 17}),
-                 run("bounded", "nikolaev_p0", c=3, opt={"cap": 2}, weight=4), run("bounded", "nikolaev_p0", c=2, opt={"cap": 1}),
+                 run("bounded", "nikolaev_p0", c=3, opt={"cap": 2}, weight=4), run("bounded", "nikolaev", c=3, opt={"cap": 2, "fixed": 1, "prefill": 0}, weight=4),
+                 run("bounded", "nikolaev", c=3, opt={"cap": 4, "fixed": 1, "prefill": 1}, weight=4), run("bounded", "vyukov", c=3, opt={"cap": 2, "fixed": 1, "prefill": 0}, weight=4), run("bounded", "nikolaev_p0", c=2, opt={"cap": 1}),
                  run("bounded", "nikolaev", c=2, opt={"cap": 2, "T": 3, "m": 1}), run("bounded", "nikolaev", c=2, opt={"cap": 2, "T": 2, "m": 3}, weight=4),
                  run("bounded", "vyukov", c=2, opt={"cap": 2}, mode="wmm", d=1, weight=4), run("bounded", "nikolaev", c=2, opt={"cap": 2}, mode="wmm", d=1, weight=4)],
     "budget_s": {"quick": 120, "thorough": 1500},
     "rule": "programs: T threads x m operations over {try_push_strong, try_pop_strong, try_push_weak, try_pop_weak} (vyukov) / {try_push, try_pop} (nikolaev), all "
-            "assignments, prefill 0..capacity (enumerated), optional wrap-around prefix (push/pop pairs advancing the ring indexes), final drain; oracle: Wing-Gong "
+            "assignments, prefill 0..capacity (enumerated), optional wrap-around prefix (push/pop pairs advancing the ring indexes), an adversarial fixed family "
+            "(one pusher | one thread pushing four times, lapping the index ring | one popper), at quiescence pushes until the queue reports full (capacity "
+            "conservation) and a final drain; oracle: Wing-Gong "
             "linearizability against a bounded FIFO in which weak operations may fail spuriously but never succeed wrongly and (nikolaev) a push may fail when "
             "size + #overlapping operations >= capacity; capacity() must be the next power of two",
     "assumptions": [],
